@@ -141,6 +141,8 @@ type SimRunner struct {
 	LoopSeen    bool
 	holdCond    *sync.Cond
 	active      int
+	holdFinish  bool // Finish() blocks until released (the job is then "completing": tasks done, not yet reported)
+	inFinish    bool
 }
 
 var _ taskctl.Runner = &SimRunner{}
@@ -314,6 +316,11 @@ func (r *SimRunner) Finish() {
 	if r.FinishSeq == 0 {
 		r.FinishSeq = seq
 	}
+	for r.holdFinish {
+		r.inFinish = true
+		r.holdCond.Wait()
+	}
+	r.inFinish = false
 	w.mu.Unlock()
 }
 
@@ -374,12 +381,13 @@ type JobRec struct {
 	TimerDone       bool   // the harness has delivered the timer expiry
 	Waited          bool   // was not started at once
 
-	CancelAcked       bool // an explicit cancel was acknowledged while the job was unfinished
-	CancelAckedSeq    int
-	CancelWhileWait   bool // ... and the job had not started then
-	Replaced          bool
-	ReplacedSeq       int
-	ExpectCancelCalls int // number of Cancel() deliveries that must reach the job's runner (one per cause)
+	CancelAcked          bool // an explicit cancel was acknowledged while the job was unfinished
+	CancelAckedSeq       int
+	CancelWhileWait      bool // ... and the job had not started then
+	Replaced             bool
+	ReplacedSeq          int
+	AckedWhileCompleting bool // a cancel was acknowledged between the end of the last task and the report of the completion
+	ExpectCancelCalls    int  // number of Cancel() deliveries that must reach the job's runner (one per cause)
 
 	Runners []*SimRunner
 }
